@@ -48,8 +48,8 @@ PROPS = {
     "C11": {"level": MC, "steps": [_math(59, 59, 1), {"kind": "mc", "name": "MC_PairingProduct", "workers": 4}, _wl("c11")]},
     "C12": {"level": MC, "steps": [_math(59, 60, 2), _wl("c12")]},
     "C13": {"level": MC, "steps": [_wl("c13")]},
-    "C14": {"level": MC, "steps": [_iso(9, 16), _gen("Gen_Map"), _wl("c14")]},
-    "C15": {"level": MC, "steps": [_iso(9, 16), _gen("Gen_Map"), _wl("c15")]},
+    "C14": {"level": MC, "steps": [_iso(9, 16), _gen("Gen_Map"), _gen("Gen_MapSub"), _wl("c14")]},
+    "C15": {"level": MC, "steps": [_iso(9, 16), _gen("Gen_Map"), _gen("Gen_MapDiag"), _wl("c15")]},
     "C16": {"level": MC, "steps": [_iso(), _gen("Gen_Iso"), _wl("c16")]},
     "C17": {"level": MC, "steps": [_math(55, 56, 2), _gen("Gen_Enc"), _wl("c17")]},
     "C18": {"level": MC, "steps": [_math(1, 8, 8), _wl("c18")]},
